@@ -157,11 +157,14 @@ func (g *gl) expr(e ast.Expr, bs *[]glBind) string {
 		b := g.expr(x.X, bs)
 		i := g.expr(x.Index, bs)
 		i = g.toInt(i, g.typeOf(x.Index))
-		if g.leanType(g.typeOf(x.X)) != "Bytes" {
+		acc := "idx"
+		if xt := g.leanType(g.typeOf(x.X)); strings.HasPrefix(xt, "(List ") {
+			acc = "lidx"
+		} else if xt != "Bytes" {
 			g.bad(x.Pos(), "index into %s", g.typeOf(x.X))
 		}
 		n := g.fresh("t")
-		*bs = append(*bs, glBind{n, fmt.Sprintf("(idx %s %s)", b, i), false})
+		*bs = append(*bs, glBind{n, fmt.Sprintf("(%s %s %s)", acc, b, i), false})
 		return n
 	case *ast.SliceExpr:
 		if x.Slice3 {
